@@ -2,10 +2,12 @@
 (* Binding layer, scenario generator for C08 (GROUP BY): grouping key lists  *)
 (* (single keys and pairs) x aggregate lists x WHERE x ORDER BY on a key or  *)
 (* an integer-valued aggregate (asc/desc), over world W7.                    *)
-EXTENDS WorldC07, Lang, Json, FiniteSets
+EXTENDS WorldC07, WorldRnd, Lang, Json, FiniteSets
 
-VARIABLES keys, fns, flt, ord, shown, phase
-vars == <<keys, fns, flt, ord, shown, phase>>
+CONSTANT WorldSel      \* 0 = the fixed world W7, s > 0 = the pseudo-random tree WorldRnd!RndWorld(s)
+
+VARIABLES keys, fns, flt, ord, shown, ws, phase
+vars == <<keys, fns, flt, ord, shown, ws, phase>>
 
 KeyLists == { <<k>> : k \in {"ext", "dir", "is_dir", "mode", "uid", "length(name)"} } \cup
             { <<"ext", "dir">>, <<"length(name)", "ext">>, <<"is_dir", "ext">>, <<"uid", "mode">>, <<"dir", "uid">>, <<"ext", "length(name)">> }
@@ -26,8 +28,8 @@ Orders(k, f) == { <<>> }
 (* shown: how many leading keys appear in the select list (a key need not be selected); hidden keys only with exact aggregates *)
 ExactLists == { <<"count">>, <<"count", "sum">>, <<"sum", "min", "max">> }
 
-Init == keys = <<>> /\ fns = <<>> /\ flt = "" /\ ord = <<>> /\ shown = 0 /\ phase = "start"
-Choose == /\ phase = "start"
+Init == keys = <<>> /\ fns = <<>> /\ flt = "" /\ ord = <<>> /\ shown = 0 /\ ws = 0 /\ phase = "start"
+Choose == /\ phase = "start" /\ ws' \in WorldSel
           /\ keys' \in KeyLists /\ fns' \in AggLists /\ flt' \in DOMAIN Filters
           /\ \/ shown' = Len(keys') /\ ord' \in Orders(keys', fns')
              \/ /\ fns' \in ExactLists /\ shown' \in 0 .. Len(keys') - 1
@@ -48,8 +50,9 @@ OrdItem(o) == (IF o.by = "key" THEN keys[o.i] ELSE FnText(fns[o.i])) \o (IF o.de
 OrderText == IF ord = <<>> THEN "" ELSE " order by " \o OrdItem(ord[1]) \o (IF Len(ord) = 2 THEN ", " \o OrdItem(ord[2]) ELSE "")
 OrdClass == IF ord = <<>> THEN "none" ELSE ord[1].by \o (IF ord[1].desc THEN "-desc" ELSE "") \o (IF Len(ord) = 2 THEN "+" \o ord[2].by \o (IF ord[2].desc THEN "-desc" ELSE "") ELSE "")
 
-Scenario == [prop |-> "C08", world |-> "W7",
-             class |-> "group=" \o KeysText(1) \o "/" \o OrdClass \o (IF flt = "all" THEN "" ELSE "/where")
+WKey(x) == IF x = 0 THEN "W7" ELSE "R" \o ToString(x)
+Scenario == [prop |-> "C08", world |-> WKey(ws),
+             class |-> (IF ws = 0 THEN "" ELSE "rnd/") \o "group=" \o KeysText(1) \o "/" \o OrdClass \o (IF flt = "all" THEN "" ELSE "/where")
                        \o (IF shown < Len(keys) THEN "/shown" \o ToString(shown) ELSE ""),
              fns |-> fns, col |-> "size", keys |-> keys, order |-> ord, shown |-> shown,
              formula |-> [f |-> "prefix", toks |-> Filters[flt], atoms |-> FAtoms],
@@ -57,6 +60,6 @@ Scenario == [prop |-> "C08", world |-> "W7",
              runs |-> << [tag |-> "q", ncols |-> shown + Len(fns), chars |-> TRUE,
                           argv |-> << "select " \o ShownText(1) \o ListText(1) \o " from '.'" \o WhereText
                                       \o " group by " \o KeysText(1) \o OrderText \o " into list" >>] >>]
-EmitWorld == (phase = "start") => PrintT(<<"WORLD", ToJson([key |-> "W7", world |-> W7])>>)
+EmitWorld == (phase = "start") => \A x \in WorldSel : PrintT(<<"WORLD", ToJson([key |-> WKey(x), world |-> IF x = 0 THEN W7 ELSE RndWorld(x)])>>)
 Emit == phase = "done" => PrintT(<<"REPLAY", ToJson(Scenario)>>)
 =============================================================================
